@@ -34,18 +34,19 @@ def run(chk, replay=None):
     rows = vlib.read_ndjson(cases)
     if len(rows) != r.distinct:
         raise vlib.MachineryError("emitted %d cases but TLC found %d states" % (len(rows), r.distinct))
-    # one driver run per (map, era): at most 6*6*(T+1) cases each, below the reporter's cap of 200
-    # reported disagreements, so that a known finding can never crowd out an unknown one
+    # one driver run per (era, chunk of <= 180 cases, map): below the reporter's cap of 200 reported
+    # disagreements, so that a known finding can never crowd out an unknown one
     by_why = {}
+    top = str(max(x["slot"] for x in rows))
     for era in ERAS:
-        path = os.path.join(r.dir, "cases-%s.ndjson" % era)
-        vlib.write_ndjson(path, [x for x in rows if x["era"] == era])
-        for m in MAPS:
-            s = vlib.run_driver(chk, drv, [m, path], timeout=300)
-            if s.get("disagreements", 0) > 200:
-                raise vlib.MachineryError("driver run %s/%s exceeded the disagreement cap" % (era, m))
-            for k, v in (s.get("extra") or {}).get("c26_cases_by_spec_reason", {}).items():
-                by_why[k] = by_why.get(k, 0) + v
+        mine = [x for x in rows if x["era"] == era]
+        for ci in range(0, len(mine), 180):
+            path = os.path.join(r.dir, "cases-%s-%d.ndjson" % (era, ci))
+            vlib.write_ndjson(path, mine[ci:ci + 180])
+            for m in MAPS:
+                s = vlib.run_driver(chk, drv, [m, path, top], timeout=300)
+                for k, v in (s.get("extra") or {}).get("c26_cases_by_spec_reason", {}).items():
+                    by_why[k] = by_why.get(k, 0) + v
     chk.extra["c26_cases_by_spec_reason"] = by_why
     if chk.tier == "thorough":
         _binding_selftest(chk, drv, rows, r.dir)
@@ -65,7 +66,7 @@ def _binding_selftest(chk, drv, rows, d):
     vlib.write_ndjson(path, picked)
     probe = vlib.Check(chk.pid, chk.tier, chk.seed)
     probe.findings = []
-    vlib.run_driver(probe, drv, ["all", path], timeout=120)
+    vlib.run_driver(probe, drv, ["all", path, str(max(x["slot"] for x in rows))], timeout=120)
     n = len(picked) * 6
     if len(probe.violations) != n:
         raise vlib.MachineryError("binding self-test: %d flipped cases, %d rejected" % (n, len(probe.violations)))
